@@ -28,6 +28,7 @@ type invocation struct {
 	Cfg    []kv     // configuration handed over in GIT_CONFIG_COUNT / GIT_CONFIG_KEY_n / GIT_CONFIG_VALUE_n
 	Note   string // extra class coordinate of the fetch route
 	Damage string // "" or what was damaged before this run
+	Shape  string // "" or the id of the verification flag/config shape (verifyShapes)
 }
 
 // flag sets that can be expressed on the fetch route
@@ -212,4 +213,104 @@ func (c *cs) applyDamage(d *damagePlan, gitDir string) {
 	c.run.Count("repositories_damaged", 1)
 	c.run.Count("repositories_damaged_"+strings.ReplaceAll(d.Kind, "-", "_"), 1)
 	c.run.Count("repositories_damaged_mode_"+d.Mode, 1)
+}
+
+// ---- verification switches ----
+//
+// git-lfs-prune(1): --verify-remote (or lfs.pruneverifyremotealways=true) turns the verification of REACHABLE objects
+// on, --no-verify-remote turns it off whatever the configuration says, both together are refused.
+// --verify-unreachable / lfs.pruneverifyunreachablealways / --no-verify-unreachable only decide whether UNREACHABLE
+// objects are checked as well while verification is on; they never switch the verification of reachable objects
+// on or off. --when-unverified=halt (default) | continue.
+
+type verifyShape struct {
+	ID      string
+	Flags   []string
+	Remote  string // lfs.pruneverifyremotealways: "" (unset) | "true" | "false"
+	Unreach string // lfs.pruneverifyunreachablealways
+}
+
+// (a) verification in effect through the configuration only
+var shapesConfigOnly = []verifyShape{
+	{"config-only", nil, "true", ""},
+	{"config-only+continue", []string{"--when-unverified=continue"}, "true", ""},
+	{"config-both", nil, "true", "true"},
+	{"config-only+unreachable-false", nil, "true", "false"},
+}
+
+// (b) verification in effect, --no-verify-unreachable added
+var shapesNoVerifyUnreachable = []verifyShape{
+	{"flag+no-verify-unreachable", []string{"--verify-remote", "--no-verify-unreachable"}, "", ""},
+	{"config+no-verify-unreachable", []string{"--no-verify-unreachable"}, "true", ""},
+	{"config-both+no-verify-unreachable", []string{"--no-verify-unreachable"}, "true", "true"},
+	{"flag+no-verify-unreachable+continue", []string{"--verify-remote", "--no-verify-unreachable", "--when-unverified=continue"}, "", "true"},
+	{"flag+verify-unreachable+no-verify-unreachable", []string{"--verify-remote", "--verify-unreachable", "--no-verify-unreachable"}, "", ""},
+}
+
+// (c) switched off against the configuration, refused combinations, flag against configuration, lone switches
+var shapesOther = []verifyShape{
+	{"no-verify-remote-vs-config-true", []string{"--no-verify-remote"}, "true", ""},
+	{"verify-remote+no-verify-remote", []string{"--verify-remote", "--no-verify-remote"}, "", ""},
+	{"flag-vs-config-false", []string{"--verify-remote"}, "false", ""},
+	{"no-verify-remote-vs-config-both-true", []string{"--no-verify-remote", "--when-unverified=continue"}, "true", "true"},
+	{"verify-unreachable-alone", []string{"--verify-unreachable"}, "", ""},
+	{"no-verify-remote+verify-unreachable-vs-config-true", []string{"--no-verify-remote", "--verify-unreachable"}, "true", ""},
+	{"flag+halt", []string{"--verify-remote", "--when-unverified=halt"}, "", "false"},
+	{"verify-remote+no-verify-remote-vs-config-true", []string{"--verify-remote", "--no-verify-remote", "--when-unverified=continue"}, "true", ""},
+	{"config-unreachable-only", nil, "", "true"},
+}
+
+// genVerifyShapes: two shapes per case from two of the three groups (rotating), so that a quick run has each
+// group in 12 of its 18 cases.
+func genVerifyShapes(seed int64, idx int) []verifyShape {
+	rot := int(uint64(seed) % 5)
+	k := idx/3 + rot
+	a := shapesConfigOnly[k%len(shapesConfigOnly)]
+	b := shapesNoVerifyUnreachable[k%len(shapesNoVerifyUnreachable)]
+	o := shapesOther[k%len(shapesOther)]
+	switch idx % 3 {
+	case 0:
+		return []verifyShape{a, b}
+	case 1:
+		return []verifyShape{b, o}
+	}
+	return []verifyShape{o, a}
+}
+
+func (v verifyShape) invocation() invocation {
+	inv := invocation{Via: "prune", Flags: v.Flags, Argv: append([]string{"prune"}, v.Flags...), Shape: v.ID}
+	if v.Remote != "" {
+		inv.Cfg = append(inv.Cfg, kv{"lfs.pruneverifyremotealways", v.Remote})
+	}
+	if v.Unreach != "" {
+		inv.Cfg = append(inv.Cfg, kv{"lfs.pruneverifyunreachablealways", v.Unreach})
+	}
+	return inv
+}
+
+type verifyMode struct {
+	Refused     bool // contradictory flags: prune must refuse and delete nothing
+	Reachable   bool // reachable objects are verified with the remote before deletion
+	Unreachable bool // unreachable ones too (observed only)
+	Continue    bool
+}
+
+// effectiveVerify derives what git-lfs-prune(1) promises for the flags and the configuration of one run.
+func effectiveVerify(flags []string, cf []kv) verifyMode {
+	cfgTrue := func(key string) bool {
+		val := ""
+		for _, s := range cf {
+			if s.K == key {
+				val = s.V
+			}
+		}
+		return val == "true"
+	}
+	var m verifyMode
+	yes, no := has(flags, "--verify-remote"), has(flags, "--no-verify-remote")
+	m.Refused = yes && no
+	m.Reachable = !m.Refused && !no && (yes || cfgTrue("lfs.pruneverifyremotealways"))
+	m.Unreachable = m.Reachable && !has(flags, "--no-verify-unreachable") && (has(flags, "--verify-unreachable") || cfgTrue("lfs.pruneverifyunreachablealways"))
+	m.Continue = has(flags, "--when-unverified=continue")
+	return m
 }
